@@ -442,6 +442,7 @@ func run(t *rapid.T, r *rec.Recorder) {
 	acts["sendInvalid2"] = m.Wrap(c.sendInvalid)
 	acts["sendTSS"] = m.Wrap(c.sendTSS)
 	acts["sendBatch"] = m.Wrap(c.sendBatch)
+	acts["forgedSendEvent"] = m.Wrap(m.ActForgedSendEvent)
 	acts[""] = func(t *rapid.T) { m.T = t; c.check() }
 	t.Repeat(acts)
 	var fk []string
